@@ -63,7 +63,7 @@ def r1(ctx):
         ctx.ok(R, 'len() iterates the entries index..moves.len() (starts at the current entry)', w)
     else:
         ctx.violation(R, LEN + ':start', 'len() does not start at the current entry `index` up to moves.len(): it iterates %s' % sh(src, 200), w)
-    I = norm(l['elem'])
+    I = bb(l['elem'], ctx.an())
     # break at the first entry that is empty under the mask
     brk = False
     for b in sorted(l['blocks']):
@@ -278,7 +278,7 @@ def r3(ctx):
                 'iterates %s' % sh(src, 120)
             ctx.violation(R, key + ':early-exit', '%s %s: a source square can own two entries (ordinary moves and the en-passant capture), '
                           'so stopping at the first match leaves the move in the list' % (key, why), w)
-        I = norm(l['elem'])
+        I = bb(l['elem'], ctx.an())
         ups = []
         for c in s.calls:
             if c['blk'] in l['blocks'] and c['callee'] and c['callee'].endswith('bitand_assign') and c['args']:
@@ -289,7 +289,7 @@ def r3(ctx):
             ctx.violation(R, key + ':update', '%s does not clear destinations with `entry.bitboard &= !..` exactly once per entry' % key, w)
             continue
         c = ups[0]
-        idx_ok = norm(c['args'][0][2][1][1]) == I
+        idx_ok = bb(c['args'][0][2][1][1], ctx.an()) == I
         v = bb(c['argvals'][1], ctx.an())
         gs = [g for g in guards(s, c['blk'], transitive=False) if g['cond'] is not None and g['blk'] in l['blocks'] and g['blk'] not in ctrl]
         if desc == 'mask':
@@ -301,7 +301,7 @@ def r3(ctx):
             okv = match(('bbnot', ('single', dest)), v) is not None
             gd = False
             for g in gs:
-                cn = norm(g['cond'])
+                cn = bb(g['cond'], ctx.an())
                 if cn[0] == 'call' and cn[1].endswith('PartialEq>::eq') and truth(g) is True:
                     def is_sq(a):
                         return a[0] == 'field' and a[2] == 'square' and a[1][0] == 'index' and a[1][2] == I and \
@@ -352,48 +352,40 @@ def r4(ctx):
         ctx.ok(R, 'PROMOTION_PIECES = %s: four distinct promotion pieces, NUM_PROMOTION_PIECES = 4' % names, t.where('piece::PROMOTION_PIECES'))
     else:
         ctx.violation(R, 'piece::PROMOTION_PIECES', 'promotion table is %s with NUM_PROMOTION_PIECES = %s' % (names, nprom), t.where('piece::PROMOTION_PIECES'))
-    # state update
-    il = inliner(ctx)
+    # state update: the bitboard of the current entry after the call, per path
+    from ..expr import mk_index
     fin = s.final.get(('p', 1), SELF)
     BBF = ('field', E, 'bitboard')
-    cleared_word = ('bin', 'BitXor', ('field', BBF, '0'), V('bit'))
-    # bitboard of the current entry after the call, per path
     mv = mk_field(fin, 'moves', an)
-    paths = paths_deep(bb(mv, an))
+    newbb = bb(mk_field(mk_index(mv, IDX, an), 'bitboard', an), an)
+    cleared = ('bb', '^', tuple(sorted([BBF, ('single', dest)], key=repr)))
     bad = []
     seen = {'plain': 0, 'promo-mid': 0, 'promo-last': 0}
-    for conds, leaf in paths:
+    for conds, leaf in paths_deep(newbb):
         cm = {}
         for c, v, allv in conds:
             cm[repr(c)] = (c, v)
         is_none = any((c == ('bin', 'Ge', IDX, ALEN) and v != 0) or (c[0] == 'bbeq' and set(c[1:]) == {('bb0',), MB} and v != 0) for c, v in cm.values())
         promo = [v for c, v in cm.values() if c == ('field', E, 'promotion')]
         lastp = [v for c, v in cm.values() if c[0] == 'bin' and c[1] == 'Ge' and c[2] == ('bin', 'Add', PI, ('int', 1, 'usize'))]
-        # what happened to moves[index].bitboard on this path?
-        cur = leaf
-        touched = 0
-        val = None
-        for x in walk(cur):
-            if x[0] == 'after' and x[2].endswith('bitxor_assign'):
-                touched += 1
-                val = x[4][1] if len(x[4]) > 1 else None
         if is_none:
-            if touched:
+            if leaf != BBF:
                 bad.append('state changes although None is returned')
             continue
-        if promo and promo[0] == 0:
+        if not promo:
+            continue
+        if promo[0] == 0:
             seen['plain'] += 1
-            if touched != 1 or val != ('single', dest):
-                bad.append('non-promotion path: bitboard update is %s' % (sh(val, 80) if val else 'missing'))
-        elif promo:
-            if lastp and lastp[0] != 0:
-                seen['promo-last'] += 1
-                if touched != 1 or val != ('single', dest):
-                    bad.append('after the last promotion piece the destination bit is not cleared')
-            else:
-                seen['promo-mid'] += 1
-                if touched:
-                    bad.append('destination bit cleared before all promotion pieces were yielded')
+            if leaf != cleared:
+                bad.append('non-promotion path: entry bitboard becomes %s' % sh(leaf, 100))
+        elif lastp and lastp[0] != 0:
+            seen['promo-last'] += 1
+            if leaf != cleared:
+                bad.append('after the last promotion piece the destination bit is not cleared')
+        else:
+            seen['promo-mid'] += 1
+            if leaf != BBF:
+                bad.append('destination bit cleared before all promotion pieces were yielded')
     if bad:
         ctx.violation(R, NEXT + ':clear', 'next() state update wrong: ' + '; '.join(sorted(set(bad))[:3]), w)
     elif min(seen.values()) == 0:
@@ -420,11 +412,10 @@ def r4(ctx):
     for conds, leaf in paths_deep(idxf):
         if leaf == ('bin', 'Add', IDX, ('int', 1, 'usize')):
             emptied = False
+            after_mask = ('bb', '&', tuple(sorted([cleared, MASK], key=repr)))
             for c, v, allv in conds:
-                if c[0] == 'bbeq' and ('bb0',) in c[1:] and v != 0:
-                    other = [y for y in c[1:] if y != ('bb0',)]
-                    if other and any(z[0] == 'after' for z in walk(other[0])):
-                        emptied = True
+                if c[0] == 'bbeq' and set(c[1:]) == {('bb0',), after_mask} and v != 0:
+                    emptied = True
             if not emptied:
                 ok_adv = False
     if ok_adv:
